@@ -15,7 +15,8 @@ import (
 
 // ---- C16: the real worker pool source under the owned scheduler -----------------------------------
 
-// POp is one step of a pool actor: run | stop | send.
+// POp is one step of a pool actor: run | stop | send | cancelrun (the context that was given to the
+// last Run is cancelled by its owner - a start-up context, say - without Stop being called).
 type POp struct {
 	K   string `json:"k"`
 	Job string `json:"job,omitempty"` // noop | gate (blocks until the harness opens the gate) | ctx (waits for its context)
@@ -46,6 +47,7 @@ type poolRun struct {
 	jobs      []*jobRec
 	stopRets  []int
 	stopCalls []int
+	cancels   []int // moments at which the context given to Run was cancelled
 	runRets   []int
 	deferred  int
 	cands     []int
@@ -73,7 +75,8 @@ func runPool(c PoolCase, count bool) *poolRun {
 		var gateM detsync.Mutex
 		gate := detsync.NewCond(&gateM)
 		gateOpen := false
-		running, stopCalled := false, false
+		running, stopCalled, dead := false, false, false
+		cancelRun := func() {}
 		totalSends, returnedSends := 0, 0
 		for _, sc := range append(append([][]POp{c.Pre}, c.Actors...), c.Post) {
 			for _, op := range sc {
@@ -91,15 +94,25 @@ func runPool(c PoolCase, count bool) *poolRun {
 		do := func(op POp) {
 			switch op.K {
 			case "run":
-				p.Run(ctx)
-				running = true
-				stopCalled = false
+				rctx, cancel := context.WithCancel(ctx)
+				p.Run(rctx)
+				if !dead { // a pool whose Run context was cancelled stays dead until it has been stopped
+					running = true
+					stopCalled = false
+					cancelRun = cancel
+				}
 				res.runRets = append(res.runRets, tick())
+			case "cancelrun":
+				res.cancels = append(res.cancels, tick())
+				cancelRun()
+				if running {
+					running, dead = false, true
+				}
 			case "stop":
 				stopCalled = true
 				res.stopCalls = append(res.stopCalls, tick())
 				p.Stop()
-				running = false
+				running, dead = false, false
 				res.stopRets = append(res.stopRets, tick())
 			case "send":
 				j := &jobRec{id: len(res.jobs), kind: op.Job}
@@ -230,9 +243,9 @@ func judgePool(c PoolCase, pr *poolRun) *ev.Result {
 				}
 			}
 			stoppedBeforeIdle := false
-			for _, sc := range pr.stopCalls {
+			for _, sc := range append(append([]int(nil), pr.stopCalls...), pr.cancels...) {
 				if sc > j.sendCall && sc < pr.idleAt {
-					stoppedBeforeIdle = true
+					stoppedBeforeIdle = true // stopped, or its Run context cancelled: queued jobs may be dropped
 				}
 			}
 			if ctxJobs < w && !stoppedBeforeIdle && (len(j.starts) != 1 || len(j.ends) != 1 || j.ends[0] > pr.idleAt) {
@@ -357,6 +370,9 @@ func c16Catalogue() []PoolCase {
 		{Workers: 1, Lifecyle: true, Actors: [][]POp{{{K: "run"}}, {{K: "send", Job: "noop"}}, {{K: "stop"}}}},
 		// callers whose context is already cancelled, or is cancelled as soon as Send has returned
 		{Workers: 1, Pre: run, Post: stop, Actors: [][]POp{{{K: "send", Job: "gate"}, {K: "send", Job: "noop", Cctx: 1}, {K: "send", Job: "noop", Cctx: 2}, {K: "send", Job: "noop"}, {K: "send", Job: "noop", Cctx: 1}, {K: "send", Job: "noop", Cctx: 2}}}},
+		// the context given to Run is cancelled by its owner; Stop is called afterwards and must still wait
+		{Workers: 1, Pre: run, Actors: [][]POp{{{K: "send", Job: "gate"}, {K: "send", Job: "noop"}, {K: "cancelrun"}, {K: "send", Job: "noop"}, {K: "stop"}}}},
+		{Workers: 2, Pre: run, Actors: [][]POp{{{K: "send", Job: "ctx"}, {K: "send", Job: "noop"}, {K: "send", Job: "noop"}}, {{K: "cancelrun"}, {K: "stop"}, {K: "run"}, {K: "send", Job: "noop"}}}, Post: stop},
 		// second generation: a first Run/Stop cycle that ended with a busy flusher, then the deferred path again
 		{Workers: 1, Pre: firstGeneration(1, 5), Post: stop, Actors: [][]POp{append(sends(1, "gate"), sends(4, "noop")...)}},
 		{Workers: 2, Pre: firstGeneration(2, 8), Post: stop, Actors: [][]POp{append(sends(2, "gate"), sends(6, "noop")...)}},
@@ -403,7 +419,7 @@ func genPool(t *rapid.T) PoolCase {
 		for a := 0; a < na; a++ {
 			var s []POp
 			for n := rapid.IntRange(1, 4).Draw(t, "nops"); n > 0; n-- {
-				k := rapid.SampledFrom([]string{"run", "stop", "send", "send"}).Draw(t, "kind")
+				k := rapid.SampledFrom([]string{"run", "stop", "send", "send", "cancelrun"}).Draw(t, "kind")
 				op := POp{K: k}
 				if k == "send" {
 					op.Job = "noop" // gate jobs would make a Stop in the middle of a script wait for the harness itself
@@ -435,7 +451,9 @@ func genPool(t *rapid.T) PoolCase {
 			}
 			c.Actors = append(c.Actors, s)
 		}
-		if rapid.IntRange(0, 3).Draw(t, "concurrentStop") == 0 {
+		if rapid.IntRange(0, 5).Draw(t, "cancelRun") == 0 {
+			c.Actors = append(c.Actors, []POp{{K: "cancelrun"}, {K: "stop"}})
+		} else if rapid.IntRange(0, 3).Draw(t, "concurrentStop") == 0 {
 			c.Actors = append(c.Actors, []POp{{K: "stop"}})
 		} else {
 			c.Post = []POp{{K: "stop"}}
